@@ -187,6 +187,17 @@ def _case(spec, ctx):
         if not np.array_equal(t1, t2):
             ctx.fail("transform:not-repeatable", "", spec)
         t1_snapshot = t1.copy()
+        # the same data in the other accepted forms: nested lists, and a 1-D array when there is a single column
+        with ctx.formak("transform:list-input", spec):
+            tl = np.asarray(ad.transform(X.tolist()), float)
+        if not np.array_equal(tl, t1):
+            ctx.fail("transform:input-form", "nested-list input gives another result than the equivalent array", spec)
+        if X.shape[1] == 1:
+            with ctx.formak("transform:1d-input", spec):
+                t1d = np.asarray(ad.transform(X.reshape(-1)), float)
+            if not np.array_equal(t1d, t1):
+                ctx.fail("transform:input-form", "1-D input gives another result than the equivalent column", spec)
+            ctx.event("one_dimensional_input_checked")
         if np.any(t1 < 0) or not np.all(np.isfinite(t1)):
             ctx.fail("transform:negative-or-nonfinite", f"{t1}", spec)
         with ctx.formak("export_python", spec):
